@@ -166,6 +166,20 @@ func c18Observe(ov fs.FS, qs []c18Q) Obs {
 		switch q.kind {
 		case "open":
 			data, isDir, ok := c18Info(ov, q.arg)
+			// the helpers of io/fs must tell the same story as Open (a file system may implement ReadFile / Stat itself)
+			b, rerr := fs.ReadFile(ov, q.arg)
+			st, serr := fs.Stat(ov, q.arg)
+			switch {
+			case ok && !isDir && (rerr != nil || !strings.HasPrefix(data, string(b)+"|")):
+				out = append(out, L(A("fs.ReadFile disagrees with Open"), A(fmt.Sprint(rerr)), A(string(b)), A(data)))
+				continue
+			case (!ok || isDir) && rerr == nil:
+				out = append(out, L(A("fs.ReadFile succeeds where Open fails or opens a directory"), A(string(b)), A(data)))
+				continue
+			case ok != (serr == nil) || (ok && st.IsDir() != isDir):
+				out = append(out, L(A("fs.Stat disagrees with Open"), A(fmt.Sprint(serr)), A(data)))
+				continue
+			}
 			if ok {
 				out = append(out, L(A("ok"), B(isDir), A(data)))
 			} else {
